@@ -197,8 +197,10 @@ func c19Square(c *Ctx) {
 	}
 }
 
-// lenLowerBound: the largest N such that len(s) >= N is implied by the branch conditions
-// dominating block b. Also reports idx < len(s) facts for a non-constant index.
+// lenLowerBound: the largest N such that len(s) >= N holds on entry to block b on every path, and
+// whether idx < len(s) holds there. Forward must-analysis over the block graph (meet = min / and
+// at joins), so the facts survive any shape of the test: `len < 4 || len > 5`, `n != 4 && n != 5`,
+// a switch on the length, nested ifs. len(s) of an SSA slice/string value never changes.
 func lenLowerBound(b *ssa.BasicBlock, s ssa.Value, idx ssa.Value) (lb int64, idxSafe bool) {
 	isLenOf := func(v ssa.Value) bool {
 		call, ok := v.(*ssa.Call)
@@ -208,53 +210,100 @@ func lenLowerBound(b *ssa.BasicBlock, s ssa.Value, idx ssa.Value) (lb int64, idx
 		bi, ok := call.Call.Value.(*ssa.Builtin)
 		return ok && bi.Name() == "len" && len(call.Call.Args) == 1 && call.Call.Args[0] == s
 	}
-	cur := b
-	for cur != nil {
-		d := cur.Idom()
-		if d == nil {
-			break
-		}
-		if ifi, ok := d.Instrs[len(d.Instrs)-1].(*ssa.If); ok {
-			pol, known := false, false
-			t, f := d.Succs[0], d.Succs[1]
-			tDom := t == cur || (t.Dominates(cur) && len(t.Preds) == 1)
-			fDom := f == cur || (f.Dominates(cur) && len(f.Preds) == 1)
-			if t == cur && len(cur.Preds) != 1 {
-				tDom = false
-			}
-			if f == cur && len(cur.Preds) != 1 {
-				fDom = false
-			}
-			if tDom != fDom {
-				pol, known = tDom, true
-			}
-			if bo, ok := ifi.Cond.(*ssa.BinOp); ok && known {
-				if isLenOf(bo.X) {
-					if n, ok := constInt(bo.Y); ok {
-						switch {
-						case bo.Op == token.NEQ && !pol, bo.Op == token.EQL && pol:
-							if n > lb {
-								lb = n
-							}
-						case bo.Op == token.LSS && !pol, bo.Op == token.GEQ && pol:
-							if n > lb {
-								lb = n
-							}
-						case bo.Op == token.GTR && pol, bo.Op == token.LEQ && !pol:
-							if n+1 > lb {
-								lb = n + 1
-							}
-						}
-					}
-				}
-				if idx != nil && bo.Op == token.LSS && pol && bo.X == idx && isLenOf(bo.Y) {
-					idxSafe = true
-				}
-			}
-		}
-		cur = d
+	const top = int64(1) << 40
+	fn := b.Parent()
+	lbIn := map[*ssa.BasicBlock]int64{}
+	safeIn := map[*ssa.BasicBlock]bool{}
+	for _, x := range fn.Blocks {
+		lbIn[x], safeIn[x] = top, true
 	}
-	return
+	lbIn[fn.Blocks[0]], safeIn[fn.Blocks[0]] = 0, false
+	// facts added by taking edge #i out of p
+	edge := func(p *ssa.BasicBlock, i int) (int64, bool) {
+		l, sf := lbIn[p], safeIn[p]
+		ifi, ok := p.Instrs[len(p.Instrs)-1].(*ssa.If)
+		if !ok || len(p.Succs) != 2 || p.Succs[0] == p.Succs[1] {
+			return l, sf
+		}
+		pol := i == 0
+		bo, ok := ifi.Cond.(*ssa.BinOp)
+		if !ok {
+			return l, sf
+		}
+		op, x, y := bo.Op, bo.X, bo.Y
+		if !isLenOf(x) && isLenOf(y) { // mirror: c OP len  ==  len OP' c
+			x, y = y, x
+			switch op {
+			case token.LSS:
+				op = token.GTR
+			case token.GTR:
+				op = token.LSS
+			case token.LEQ:
+				op = token.GEQ
+			case token.GEQ:
+				op = token.LEQ
+			}
+		}
+		if isLenOf(x) {
+			if n, ok := constInt(y); ok {
+				var add int64 = -1
+				switch {
+				case op == token.NEQ && !pol, op == token.EQL && pol:
+					add = n
+				case op == token.LSS && !pol, op == token.GEQ && pol:
+					add = n
+				case op == token.GTR && pol, op == token.LEQ && !pol:
+					add = n + 1
+				case op == token.NEQ && pol && n == 0, op == token.EQL && !pol && n == 0:
+					add = 1
+				}
+				if add > l {
+					l = add
+				}
+			}
+		}
+		if idx != nil {
+			if bo.Op == token.LSS && pol && bo.X == idx && isLenOf(bo.Y) {
+				sf = true
+			}
+			if bo.Op == token.GEQ && !pol && bo.X == idx && isLenOf(bo.Y) {
+				sf = true
+			}
+			if bo.Op == token.GTR && pol && bo.Y == idx && isLenOf(bo.X) {
+				sf = true
+			}
+		}
+		return l, sf
+	}
+	for changed := true; changed; {
+		changed = false
+		for _, x := range fn.Blocks[1:] {
+			nl, ns := top, true
+			for _, p := range x.Preds {
+				for i, sc := range p.Succs {
+					if sc != x {
+						continue
+					}
+					if lbIn[p] == top {
+						continue // not reached yet
+					}
+					l, sf := edge(p, i)
+					if l < nl {
+						nl = l
+					}
+					ns = ns && sf
+				}
+			}
+			if nl != lbIn[x] || ns != safeIn[x] {
+				lbIn[x], safeIn[x] = nl, ns
+				changed = true
+			}
+		}
+	}
+	if lbIn[b] == top {
+		return top, true // unreachable block
+	}
+	return lbIn[b], safeIn[b]
 }
 
 func c19Index(c *Ctx) {
